@@ -33,7 +33,7 @@ CHECKS = {
              "the identical type; are_units_quantity_equivalent and unit_ratio agree with model equality / quotient on equal, near (factor 7/6, "
              "exponent 1/6) and different pairs.  The premise of canonicalisation - that the three orderings are strict total orders - is checked "
              "on extracted pairwise tables (base dimensions, magnitude bases incl. pi and 64-bit primes, ~85 unit-like types quick / ~250 "
-             "thorough) with the documented collision pairs excluded and shown to be rejected.  400 trees quick, 20000 (depth 4) thorough.",
+             "thorough) with the documented collision pairs excluded and shown to be rejected.  400 trees quick, 8000 (depth 4) thorough.",
         design_ref="3.2", technique="static_assert witness programs with exponent read-out against an exact algebraic model + extracted ordering tables",
         note=TRUST_W, engine="W"),
     "C03": dict(
@@ -139,6 +139,20 @@ CHECKS = {
              "magnitude.  These functions are only ever used in constant expressions, so the constant evaluator's answer is their behaviour.",
         design_ref="3.11", technique="constant extraction from clang IR initialisers + compile-fail witnesses against exact big-number arithmetic",
         note=TRUST_W, engine="W"),
+    "C12": dict(
+        category="exploration",
+        text="PARTIAL.  Decided for every 64-bit operand (proof, linear relational analysis with path partitioning over the IR of the three "
+             "functions): add_mod (under the weaker precondition a <= n that mul_mod's own call relies on), sub_mod and half_mod_odd never wrap in "
+             "an operation that contributes to the result, return a value in [0, n), and that value is a+b / a+b-n, a-b / a-b+n, resp. r with "
+             "2r = a or a+n.  Explored, not decided: the statement's consequence clause, which is about types - decltype(mag<N>()) is the canonical "
+             "factorisation, mag<a>()*mag<b>() is mag<a*b>(), Prime<N> of a composite N is refused - as programs that must / must not build, "
+             "for adversarial and seeded N with factorisations from independent Python integer arithmetic (strong base-2 pseudoprimes incl. those "
+             "without a factor below 541, strong Lucas pseudoprimes, Carmichael numbers, prime squares / cubes, semiprimes with factors next to "
+             "2^16 / 2^31 / 2^32, primes next to 2^k up to 2^64-59).  No value of is_prime / find_prime_factor / mul_mod / pow_mod is asserted "
+             "directly and none of them is decided for every 64-bit input (no static argument in reach bounds Baillie-PSW or Pollard rho); the "
+             "thorough tier widens the sample, it does not enumerate n < 2^26.",
+        design_ref="3.12", technique="polyhedral (linear-inequality) relational analysis of LLVM IR with path partitioning, entailment by Fourier-Motzkin; compile-time witness programs against exact integer arithmetic",
+        note=TRUST_W + "; " + TRUST_I + "; vlib/linrel.py (Fourier-Motzkin over the rationals is sound for entailment)", engine="I+W"),
     "C13": dict(
         category="proof",
         text="(S) AST shape rule on the primary templates au::Quantity / au::QuantityPoint - exactly one non-static data "
@@ -238,12 +252,7 @@ CHECKS = {
 NOT_YET = {
 }
 
-NOT_APPLICABLE = {
-    "C12": "Correctness of Baillie-PSW / Pollard-rho / mul_mod for every 64-bit n is number theory over "
-           "data-dependent loops and residues modulo a variable n; no abstract domain in reach bounds it, "
-           "and the only structural facts (wiring, call-site preconditions) are not necessary conditions "
-           "of the behaviour (DESIGN.md 3.12).",
-}
+NOT_APPLICABLE = {}
 
 
 def main():
